@@ -50,6 +50,9 @@ TABLE: list[ClassDef] = [
     ClassDef("LeafA", "Base", [FieldDef("v", "int", "int", "0")]),
     ClassDef("LeafB", "Base", [FieldDef("v", "int", "int", "0")]),
     ClassDef("SubLeafA", "LeafA", [FieldDef("extra", "str", "str", '""')]),
+    # a third inheritance level, a class-level constant (ClassVar: not a dataclass field) and an overridden default
+    ClassDef("SubSubLeafA", "SubLeafA", [FieldDef("v", "int", "int", "5"), FieldDef("deep", "bool", "bool", "False")],
+             extra_body="    LIMIT: ClassVar[int] = 3\n"),
     ClassDef(
         "Strs", "Base",
         [FieldDef("a", "str", "str", '""'), FieldDef("b", "str", "str", '""'),
@@ -215,7 +218,7 @@ import abc
 import enum
 from dataclasses import dataclass, field
 from pathlib import Path
-from typing import Literal
+from typing import ClassVar, Literal
 
 from mashumaro.types import SerializableType
 from pyoak.node import ASTNode
